@@ -200,6 +200,18 @@ def Res.accepted : Res → Bool
   | .ok _ => true
   | _ => false
 
+/-- A batch added at runtime (`ConfigObjectUtility::CreateObject` → `ConfigItem::CommitItems` →
+    `BeforeOnAllConfigLoadedHandler` → `OnAllConfigLoaded`, lib/remote/configobjectutility.cpp,
+    dependency.cpp:152-169, 247-260): the dependencies are registered only if the cycle check passes;
+    a refused batch leaves the registered set as it was. -/
+def runtimeAdd (g : Graph) (new : List Dep) (bound : Nat) : Graph × Bool :=
+  if (cycleCheck g new bound).accepted then ({ g with deps := g.deps ++ new }, true) else (g, false)
+
+/-- a sequence of runtime batches. -/
+def runtimeAdds (bound : Nat) : Graph → List (List Dep) → Graph
+  | g, [] => g
+  | g, b :: bs => runtimeAdds bound (runtimeAdd g b bound).1 bs
+
 /-! ### registry (counts only; lib/icinga/dependency-group.cpp:23-63, dependency.hpp Hash/Equal) -/
 
 /-- `DependencyGroup::MakeCompositeKeyFor` (dependency-group.cpp:93-101). -/
